@@ -22,7 +22,7 @@ def run(tier='quick', seed=0, only=None):
     if not only:
         try:
             from bounded import packets as bp
-            bounded = [bp.component]
+            bounded = [bp.component, codecs.partial_lengths_bounded]
         except ImportError:
             pass
     return runner.run_property(PID, its, bounded=bounded, tier=tier, seed=seed, level='proof',
